@@ -32,7 +32,7 @@ CHECKS = {
    "Trusted: reference LALR(1) classification (LR(1) merge), Earley recognizer. Bounds as C01.",
    "3/C02"),
  "C05": ("exploration",
-   "exhaustive enumeration: every small integer matrix through utils.PackTable/UnPackTable; every (state, symbol) cell of every grammar of the bounded classes through a transliteration of the generated packed Action() vs the dense table, under canonical and reversed map order; packed vs -u generated parsers on the conformance corpus",
+   "exhaustive enumeration: every small integer matrix through utils.PackTable/UnPackTable (also spread over rows of 72 columns, and in histories of two calls: the earlier result must still unpack to its matrix after the later call); every (state, symbol) cell of every grammar of the bounded classes through a transliteration of the generated packed Action() vs the dense table, under canonical and reversed map order, and once more after the NEXT grammar has been built in the same process; packed vs -u generated parsers on the conformance corpus",
    "Lookup through the packed arrays with default-action and default-goto vectors must return exactly the dense cell, for all cells of all grammars of the classes and all matrices of the stated shapes.",
    "Trusted: the transliteration of Action() (bound to generated code by the Action() dump in the conformance phase).",
    "3/C05"),
@@ -47,12 +47,12 @@ CHECKS = {
    "Trusted: Earley viable-prefix oracle; abstract driver bound by conformance replays. Reduction loops of conflicting (e.g. cyclic) grammars are counted, not judged.",
    "3/C06"),
  "C07": ("model_checking",
-   "bounded exhaustive replay on compiled generated parsers: corpus grammars x union-field assignments x action shapes (also: a nested parse started from inside every action) x all strings up to the bound; returned value compared with reference attribute evaluation over the parser's own derivation-checked reductions",
+   "bounded exhaustive replay on compiled generated parsers: corpus grammars x union-field assignments x action shapes (also: a nested parse started from inside every action; references written with a leading zero, $010, in a rule of twelve symbols) x all strings up to the bound; returned value compared with reference attribute evaluation over the parser's own derivation-checked reductions",
    "Harness-chosen actions make every stack slot and union field observable (token values encode character and position, rule values rule number and argument order). For every (grammar, tag assignment, action shape) and every accepted string the value returned by Parser() must equal bottom-up evaluation; Go (global packed, -o -u) and TypeScript.",
    "Trusted: combinators shared between generated code and reference (gen/rt), the derivation checker, the TypeScript type eraser. Tag assignments: all-string, all-int, each single symbol switched to int or untagged; not all 3^n assignments.",
    "3/C07"),
  "C08": ("model_checking",
-   "differential bounded exhaustive replay: every corpus grammar generated in all five variants (go, -u, -o, -o -u, typescript), compiled/loaded, all strings up to the bound run on each (also with rules that have no action block at all, and with a nested parse inside every action); verdict class, reduction sequence and value compared pairwise and with the model run",
+   "differential bounded exhaustive replay: every corpus grammar generated in all five variants (go, -u, -o, -o -u, typescript), compiled/loaded, all strings up to the bound run on each (also with rules that have no action block at all, with a nested parse inside every action, and with a lexer that keeps its value cell between calls and accumulates into it, yylval style); verdict class, reduction sequence and value compared pairwise and with the model run",
    "All variants of one grammar must agree on every input up to the bound; each run is additionally compared with the abstract LR driver over yaccgo's tables (traces_validated).",
    "Trusted: Go toolchain, Node 20, the type eraser (logs every deleted span). The embedded template strings equal the .templ files on this tree; a Makefile regeneration is not exercised.",
    "3/C08"),
@@ -97,7 +97,7 @@ CHECKS = {
    "Failure = error return or panic of the generator. Non-terminating inputs are excluded here (C13). Faults attributable to the environment (unwritable path, full disk) are outside the statement.",
    "3/C19"),
  "C15": ("model_checking",
-   "(a) exhaustive enumeration of parse histories (all sequences of <=3 parses over <=8 inputs per parser, with re-initialisation / fresh contexts, Go and TypeScript) compared with the solo (model) result; (b) stateless model checking of the real generated -o parsers under a hand-written cooperative scheduler: 2-3 contexts in separate goroutines, scheduling points at every lexer fetch and semantic action, all schedules with <=2 preemptions (all interleavings for short pairs), deviating schedules replayed; (c) separate free-running -race pass of the same bodies on 8 goroutines, started behind a barrier in a process that has not parsed anything yet (lazily built shared state is still cold), the lexer hook yielding the processor",
+   "(a) exhaustive enumeration of parse histories (all sequences of <=3 parses over <=8 inputs per parser, with re-initialisation / fresh contexts, Go and TypeScript) compared with the solo (model) result; (b) stateless model checking of the real generated -o parsers under a hand-written cooperative scheduler: 2-3 contexts in separate goroutines, scheduling points at every lexer fetch and semantic action, all schedules with <=2 preemptions (all interleavings for short pairs), also with IsTrace = true, deviating schedules replayed, a parse that blocks outside the scheduler while the other is suspended reported as a deadlock with its schedule; (c) separate free-running -race pass of the same bodies on 8 goroutines, started behind a barrier in a process that has not parsed anything yet (lazily built shared state is still cold), the lexer hook yielding the processor",
    "Every parse in every history and every schedule must give exactly the observation of that parse alone (verdict, reductions with fetch counts, value), also with actions that do not always assign $$, with a nested parse started from inside every action (PushContex/ParserInit/Parser/PopContex, a fresh context with -o), and on one global parser / one -o context re-initialised 12 000 times; a value returned by a parse must still read the same after the later parses of the history (the caller keeps the pointer); no data race between contexts.",
    "Scheduling points = the places where user code runs inside Parser(); unsynchronised accesses elsewhere are the race pass's job (cooperative hand-offs are happens-before edges). Bounds: 3 parses per history, 8 inputs of <=4 tokens, 2 preemptions, 3 contexts.",
    "3/C15"),
